@@ -177,7 +177,7 @@ def check_fuzz(ctx, cases):
         ctx.sample({'doc': (c.get('doc') or c.get('hex'))[:160], 'outcomes': o}, cap=4)
     known = {f['id']: f for f in ctx.known}
     for c, o, bad in suspects:
-        text = c.get('doc', '')
+        text = c.get('doc') or bytes.fromhex(c.get('hex', '')).decode('utf-8', 'replace')
         if all('RecursionError' in b for b in bad) and c.get('deep'):
             ctx.known_finding('F-C11b')
             continue
